@@ -26,7 +26,9 @@ var (
 		// bucket names are taken verbatim, white space included
 		"pad:{p, q}", "pad2:{r ,s}",
 		// further buckets of charts listed above, as entries of their own (with rates of their own)
-		"chart:{b4,b5}", "gopls/client:{emacs,other}", "c:{bbb}"}
+		"chart:{b4,b5}", "gopls/client:{emacs,other}", "c:{bbb}",
+		// bucket names that contain the separator themselves
+		"target:{linux:amd64,linux:arm64,other}", "sep:a:b"}
 	StackPool = []string{"crash/crash", "gopls/bug", "stk", "a/stk"}
 	RatePool  = []float64{0, 0.1, 0.5, 0.9, 1}
 )
